@@ -90,13 +90,18 @@ class IntegralSolverPySCF(IntegralSolver):
                 mol.q (float): Total charge.
                 mol.spin (int): Absolute difference between alpha and beta electron number.
         """
-        pymol = mol_to_pyscf(mol)
+        # Only the geometry and the electron count are needed here: no basis set is loaded, as no
+        # single basis set covers every element (e.g. CRENBL has no helium).
+        atoms = self.gto.format_atom(mol.xyz, unit="Angstrom")
         mol.xyz = list()
-        for sym, xyz in pymol._atom:
+        for sym, xyz in atoms:
             mol.xyz += [tuple([sym, tuple([x*self.lib.parameters.BOHR for x in xyz])])]
 
-        mol.n_atoms = pymol.natm
-        mol.n_electrons = pymol.nelectron
+        mol.n_atoms = len(atoms)
+        mol.n_electrons = sum(self.gto.charge(sym) for sym, _ in atoms) - mol.q
+        if (mol.n_electrons + mol.spin) % 2 != 0 or mol.spin > mol.n_electrons:
+            raise RuntimeError(f"Electron number {mol.n_electrons} and spin {mol.spin} are not consistent\n"
+                               "Note mol.spin = 2S = Nalpha - Nbeta, not 2S+1")
 
     def assign_mo_coeff_symmetries(self, sqmol):
         """Assigns the symmetry labels for the current molecular coefficients.
